@@ -148,14 +148,17 @@ Frozen == [][UNCHANGED scen]_vars
 
 \* out- and in-components are dual, contain their seed, and the classes of
 \* mutual reachability partition the node set
-Duality == \A u, v \in Node : (v \in OutOf(adj, {u})) <=> (u \in IntoOf(adj, {v}))
-Partition == /\ UNION SCCs(adj) = Node
+\* (the scenario is frozen, so the properties of H are evaluated once per
+\* scenario: in its final state)
+Duality == done => \A u, v \in Node : (v \in OutOf(adj, {u})) <=> (u \in IntoOf(adj, {v}))
+Partition == done =>
+             /\ UNION SCCs(adj) = Node
              /\ \A C, D \in SCCs(adj) : C = D \/ C \cap D = {}
              /\ \A C \in SCCs(adj) : \A u, v \in C : <<u, v>> \in Reach(adj)
 
 \* the statement's side conditions: C inside both components (in fact it is
 \* exactly their intersection), both counts in 1..N
-ComponentsOK ==
+ComponentsOK == done =>
     /\ Largest(adj) # {}
     /\ \A C \in Largest(adj) :
           /\ C \subseteq IntoOf(adj, C) \cap OutOf(adj, C)
@@ -167,7 +170,7 @@ ComponentsOK ==
 \* an undirected (symmetric) graph: one answer, both outputs equal, and the
 \* value is the size of a largest connected component
 UndirectedOK ==
-    Symmetric(adj) =>
+    (done /\ Symmetric(adj)) =>
         /\ Cardinality(Admissible(adj)) = 1
         /\ \A a \in Admissible(adj) :
               /\ a[1] = a[2]
@@ -182,7 +185,7 @@ SumW(S, g, p) == IF S = {} THEN 0
                       IN BondWeight(g, GraphOf(F), p)[1] + SumW(S \ {F}, g, p)
 EdgeSet(A) == {{pr[1], pr[2]} : pr \in DirEdges(A)}
 BondNormalised ==
-    (kind = "BOND" /\ ~done) =>
+    (kind = "BOND" /\ done) =>
         SumW(SUBSET EdgeSet(src.g), src.g, src.p) = Pow(src.p[2], NEdges(src.g))
 
 \* the percolated digraph has g's nodes and only (directed versions of) g's edges
@@ -202,7 +205,7 @@ FixpointAgree == done => /\ R = Reach(adj)
 Walk(A, u, v) == \E k \in 0..(N - 1) : \E p \in [0..k -> Node] :
                     /\ p[0] = u /\ p[k] = v
                     /\ \A i \in 0..(k - 1) : p[i + 1] \in A[p[i]]
-WalkAgree == ~done => \A u, v \in Node : Walk(adj, u, v) <=> (<<u, v>> \in Reach(adj))
+WalkAgree == done => \A u, v \in Node : Walk(adj, u, v) <=> (<<u, v>> \in Reach(adj))
 
 -----------------------------------------------------------------------------
 \* emission for the harness (ACTION_CONSTRAINT): one record per scenario
